@@ -313,6 +313,13 @@ class Verdict:
 
     def finish(self):
         wall = time.time() - self.t0
+        if getattr(self, "only_key", None) is not None:
+            hit = [x for x in self.violations if x[0] == self.only_key]
+            log("replay: violation key %r %s (%d other violation(s) in this run)" % (self.only_key, "REPRODUCED" if hit else "not reproduced", len(self.violations) - len(hit)))
+            for (key, what, payload) in hit[:1]:
+                log("VIOLATION property=%s replay=%s" % (self.pid, getattr(self, "replay_path", "(replayed)")))
+                log("  key=%s what=%s" % (key, what[:400]))
+            return 1 if hit else 0
         for k, (what, n) in self.known_hits.items():
             log("KNOWN-FINDING: property=%s %s [%s, %d case(s) this run]" % (self.pid, what, k, n))
         rdir = os.path.join(VERIF, "replays", self.pid)
